@@ -79,6 +79,8 @@ pub fn lib_l() -> LibL {
             ("a:c/dup", i_f.clone()),
             ("a:d/dup", i_g.clone()),
             ("plain-inst", i_f.clone()),
+            // an import named like the `as` name of a renamed path import (rule 1 vs rule 2)
+            ("renamed-bar", i_f.clone()),
         ],
         &[("run", f0.clone()), ("a:b/foo", i_f.clone()), ("out", i_f.clone())],
     );
@@ -670,6 +672,18 @@ pub fn check_program(lib: &LibL, versions: &BTreeMap<(String, Option<String>), O
             }
         }
     }
+    // one cause, several symptoms: when a renamed path import was dropped in favour of the
+    // implicit import of the same interface, wiring through it differs too
+    let cause = "C04/composition/explicit-import-missing/renamed-path-import-whose-interface-is-also-implicitly-imported";
+    if out.viols.iter().any(|(f, _)| f == cause) {
+        let rest: Vec<String> = out.viols.iter().filter(|(f, _)| f != cause).map(|(f, _)| f.clone()).collect();
+        out.viols.retain(|(f, _)| f == cause || !f.starts_with("C04/composition/"));
+        if let Some(first) = out.viols.iter_mut().find(|(f, _)| f == cause) {
+            if !rest.is_empty() {
+                first.1.push_str(&format!("\n(also: {rest:?})"));
+            }
+        }
+    }
     out
 }
 
@@ -716,6 +730,7 @@ fn modes() -> Vec<(&'static str, Vec<Option<Arg>>)> {
         ("a:b/bar@1.0.0", vec![None, inf("pbar"), inf("rbar"), n_id("bar", id("pbar")), n_str("a:b/bar@1.0.0", id("rbar"))]),
         ("dup", vec![None, n_str("a:c/dup", id("pdupc")), n_id("dup", id("pdupc")), inf("dup"), inf("pdupc")]),
         ("plain-inst", vec![None, inf("pplain"), n_id("plain-inst", id("pplain")), n_str("plain-inst", id("foo"))]),
+        ("renamed-bar", vec![None, n_str("renamed-bar", id("pfoo")), n_id("renamed-bar", id("rbar"))]),
     ]
 }
 
@@ -775,6 +790,7 @@ pub fn programs(tier: Tier) -> Vec<(String, Vec<Stmt>)> {
         Arg::NamedStr("a:c/dup".into(), id("pdupc")),
         Arg::NamedStr("a:d/dup".into(), id("pdupd")),
         Arg::Inferred("pplain".into()),
+        Arg::NamedStr("renamed-bar".into(), id("pfoo")),
     ];
     let export_forms: Vec<(&str, Vec<Stmt>)> = vec![
         ("access", vec![Stmt::Export(acc(id("t"), "run"), ExportOpt::None)]),
